@@ -111,38 +111,66 @@ func (p ReorgSyncPlan) Fingerprint() string {
 // RunReorgSync executes the plan and fills res.
 func RunReorgSync(p ReorgSyncPlan, res *Result) {
 	res.Fingerprint = p.Fingerprint()
+	// The client must stay "not current" until the last part of the chain is
+	// revealed WITHOUT any peer overstating its height (a sync peer that
+	// advertises more than it serves is dropped): with OldGenesis the first
+	// tip and the new tip are more than 24 h old and only the final tip is
+	// recent. Everything is generated before the client starts; a first pass
+	// measures where the final tip lands relative to the genesis block (the
+	// fast branch of the same-height shape runs into the generator's
+	// difficulty cap), the second pass places the genesis accordingly.
 	spacing := int64(4)
 	if p.OldGenesis {
-		spacing = 32 // 2700+ blocks then span more than 24 h
-	}
-	span := time.Duration(int64(p.FinalTip+60)*spacing) * time.Second
-	if p.SameHeight && p.Fork <= 1000 {
-		// The fast branch runs into the generator's difficulty cap and is
-		// then mined slowly: leave room so that it does not end in the
-		// future, with a genesis older than 24 h and tips younger than that.
-		spacing, span = 20, 26*time.Hour
-	} else if p.OldGenesis && span < 25*time.Hour {
-		spacing = int64(25*time.Hour/time.Second)/int64(p.FinalTip+60) + 1
-		span = time.Duration(int64(p.FinalTip+60)*spacing) * time.Second
+		spacing = 480 // the >= 200 blocks revealed last span more than 24 h
 	}
 	preset, interval := chaingen.PresetNoRetarget, 0
+	branchPace, restPace := chaingen.PaceNormal, chaingen.PaceNormal
 	if p.SameHeight {
 		preset, interval = chaingen.PresetRetarget, 16
+		branchPace, restPace = chaingen.PaceFast, chaingen.PaceSlow
+		spacing = 75 // 305 slow blocks (4x+1 s) then span more than 24 h
 	}
-	w := NewWorld(Config{Seed: p.Seed, Preset: preset, Interval: interval, SpacingSec: spacing, GenesisAgo: span})
+	type built struct {
+		w                   *World
+		trunk, branch, rest []*chaingen.Node
+	}
+	build := func(ago time.Duration) built {
+		w := NewWorld(Config{Seed: p.Seed, Preset: preset, Interval: interval, SpacingSec: spacing, GenesisAgo: ago})
+		trunk := w.G.Extend(w.G.Genesis, int(p.FirstTip), chaingen.PaceNormal)
+		f := trunk[len(trunk)-1].Ancestor(p.Fork)
+		branch := w.G.Extend(f, int(p.NewTip-p.Fork), branchPace)
+		rest := w.G.Extend(branch[len(branch)-1], int(p.FinalTip-p.NewTip), restPace)
+		return built{w, trunk, branch, rest}
+	}
+	probe := build(1000 * time.Hour)
+	off := probe.rest[len(probe.rest)-1].Hdr.Timestamp.Sub(probe.w.G.Genesis.Hdr.Timestamp)
+	probe.w.Cleanup()
+	bl := build(off + 20*time.Minute)
+	w := bl.w
 	defer w.Cleanup()
 	g := w.G
-	trunk := g.Extend(g.Genesis, int(p.FirstTip), chaingen.PaceNormal)
+	trunk, branch, rest := bl.trunk, bl.branch, bl.rest
 	first := trunk[len(trunk)-1]
+	nt := branch[len(branch)-1]
+	final := rest[len(rest)-1]
+	if age := time.Since(final.Hdr.Timestamp); age < 0 || age > 12*time.Hour {
+		res.Inconcl(fmt.Sprintf("generated final tip is %v old", age))
+		return
+	}
+	if p.OldGenesis {
+		for _, n := range []*chaingen.Node{first, nt} {
+			if time.Since(n.Hdr.Timestamp) < 24*time.Hour+10*time.Minute {
+				res.Inconcl("generated first/new tip is not older than 24 h")
+				return
+			}
+		}
+	}
 	var honest []*netsim.Peer
 	for i := 0; i < p.Honest; i++ {
-		pr := w.AddPeer(first)
-		pr.StartHeightOverride = p.Claim
-		honest = append(honest, pr)
+		honest = append(honest, w.AddPeer(first))
 	}
 	for _, lie := range p.Liars {
-		pr := w.AddLiar(first, lie)
-		pr.StartHeightOverride = p.Claim
+		w.AddLiar(first, lie)
 	}
 	setTip := func(n *chaingen.Node) {
 		for _, pr := range w.Peers {
@@ -181,13 +209,6 @@ func RunReorgSync(p ReorgSyncPlan, res *Result) {
 
 	// Phase 2: the network reorganises; every peer follows, the peers that
 	// are connected announce the new branch with headers messages.
-	f := first.Ancestor(p.Fork)
-	pace := chaingen.PaceNormal
-	if p.SameHeight {
-		pace = chaingen.PaceFast
-	}
-	branch := g.Extend(f, int(p.NewTip-p.Fork), pace)
-	nt := branch[len(branch)-1]
 	if nt.CumWork.Cmp(first.CumWork) <= 0 {
 		res.Inconcl("generated branch is not heavier than the chain it should replace")
 		return
@@ -221,8 +242,6 @@ func RunReorgSync(p ReorgSyncPlan, res *Result) {
 	}
 
 	// Phase 3: the rest of the chain is revealed; the client must converge.
-	rest := g.Extend(nt, int(p.FinalTip-p.NewTip), chaingen.PaceNormal)
-	final := rest[len(rest)-1]
 	setTip(final)
 	for _, pr := range w.Peers {
 		if pr.Conn() != nil {
